@@ -220,10 +220,23 @@ class Model:
         for k in U:
             if k not in m.aug:
                 return False
-        m._store(typed)
-        for k in U:
-            m.aug.pop(k, None)
-        self.__dict__.update(m.__dict__)
+        # `meson configure` only writes the store back when the command changes something; a command
+        # whose assignments all equal the current values leaves the directory as it was (options that
+        # appeared in an edited option file are then not created yet) - but it is still recorded
+        changed = bool(U)
+        for k, v in typed.items():
+            name = k.split(':', 1)[1] if k.startswith(SUB + ':') else k
+            if name in BUILTIN_CHOICES:
+                cur = m.aug.get(k, object()) if k.startswith(SUB + ':') else m.builtin.get(k)
+            else:
+                cur = m.vals.get(k, object())
+            if cur != v:
+                changed = True
+        if changed:
+            m._store(typed)
+            for k in U:
+                m.aug.pop(k, None)
+            self.__dict__.update(m.__dict__)
         self.cmdline.update(D)
         for k in U:
             self.cmdline.pop(k, None)
